@@ -384,6 +384,44 @@ func decFCase(args []string) (*fCase, error) {
 type schemaMapper struct {
 	sch   []fSchemaM
 	calls int
+	// shared: hand out the same two maps for a measurement on every call, as a mapper backed by an
+	// index does; they are the caller's schema and must come back unchanged (intact).
+	shared bool
+	fcache map[string]map[string]influxql.DataType
+	dcache map[string]map[string]struct{}
+}
+
+// intact reports whether the maps handed out in shared mode still hold exactly the schema.
+func (m *schemaMapper) intact() string {
+	for name, f := range m.fcache {
+		s := m.find(name)
+		want := map[string]influxql.DataType{}
+		for _, c := range s.fields {
+			want[c.name] = influxql.DataType(c.typ)
+		}
+		if len(f) != len(want) {
+			return fmt.Sprintf("the field map of %s handed out by the mapper has %d entries, the schema %d", name, len(f), len(want))
+		}
+		for k, v := range want {
+			if g, ok := f[k]; !ok || g != v {
+				return fmt.Sprintf("the field map of %s handed out by the mapper lost or changed %s", name, k)
+			}
+		}
+		d := m.dcache[name]
+		wantD := map[string]struct{}{}
+		for _, t := range s.tags {
+			wantD[t] = struct{}{}
+		}
+		if len(d) != len(wantD) {
+			return fmt.Sprintf("the tag-key map of %s handed out by the mapper has %d entries, the schema %d", name, len(d), len(wantD))
+		}
+		for k := range wantD {
+			if _, ok := d[k]; !ok {
+				return fmt.Sprintf("the tag-key map of %s handed out by the mapper lost %s", name, k)
+			}
+		}
+	}
+	return ""
 }
 
 func (m *schemaMapper) find(name string) *fSchemaM {
@@ -406,6 +444,11 @@ func (m *schemaMapper) FieldDimensions(ms *influxql.Measurement) (map[string]inf
 	if s.err {
 		return nil, nil, errors.New("mapper error for " + ms.Name)
 	}
+	if m.shared {
+		if f, ok := m.fcache[ms.Name]; ok {
+			return f, m.dcache[ms.Name], nil
+		}
+	}
 	f := make(map[string]influxql.DataType, len(s.fields))
 	for _, c := range s.fields {
 		f[c.name] = influxql.DataType(c.typ)
@@ -413,6 +456,12 @@ func (m *schemaMapper) FieldDimensions(ms *influxql.Measurement) (map[string]inf
 	d := make(map[string]struct{}, len(s.tags))
 	for _, t := range s.tags {
 		d[t] = struct{}{}
+	}
+	if m.shared {
+		if m.fcache == nil {
+			m.fcache, m.dcache = map[string]map[string]influxql.DataType{}, map[string]map[string]struct{}{}
+		}
+		m.fcache[ms.Name], m.dcache[ms.Name] = f, d
 	}
 	return f, d, nil
 }
@@ -1295,6 +1344,23 @@ func propFieldsRewriteFull(args []string) (string, string) {
 		}
 		if sel.String() != before {
 			return "the receiver was modified", ""
+		}
+	}
+	// the same mapper object for several calls, handing out the same maps every time (round-3 seeded change
+	// C12-1: a single-measurement fast path returned the mapper's maps and RewriteFields deleted from them):
+	// every call gives the first result and the maps still hold the schema
+	shm := &schemaMapper{sch: c.schema, shared: true}
+	var shared influxql.FieldMapper = shm
+	if c.ct {
+		shared = schemaCallMapper{shm}
+	}
+	for i := 0; i < 3; i++ {
+		rw2, rerr2 := sel.RewriteFields(shared)
+		if got := canonRewrite(rw2, rerr2); got != first {
+			return fmt.Sprintf("%s: call %d with one mapper object differs: %s vs %s", text, i+1, first, got), ""
+		}
+		if d := shm.intact(); d != "" {
+			return fmt.Sprintf("%s: after call %d: %s", text, i+1, d), ""
 		}
 	}
 	wantErr := c.expectError(sel)
